@@ -175,8 +175,11 @@ def _jsonable(x):
 class Driver:
     """Native Lean model driver; one request line in, one canonical line out."""
 
-    def __init__(self, exe: Path):
+    def __init__(self, exe: Path, on_death=None, spec_ops=None):
         self.exe = exe
+        self.spec_ops = spec_ops        # callable -> set of request ops (first token of a request line) that evaluate Spec-only definitions
+        self.on_death = on_death        # called once with a message when the driver process dies; answers are then "E:driver-died"
+        self.dead = False
         self.proc = subprocess.Popen([str(exe)], stdin=subprocess.PIPE, stdout=subprocess.PIPE, text=True, bufsize=1 << 16)
 
     def batch(self, lines):
@@ -187,6 +190,8 @@ class Driver:
             return []
         for ln in lines:
             assert "\n" not in ln
+        if self.dead:
+            return ["E:driver-died"] * len(lines)
 
         def writer():
             try:
@@ -202,9 +207,22 @@ class Driver:
         for _ in lines:
             r = self.proc.stdout.readline()
             if not r:
-                raise Infra(f"model driver {self.exe.name} died (after {len(out)} answers)")
+                # a model that crashes (e.g. on a regenerated part) is a broken correspondence, not an infrastructure problem
+                self.dead = True
+                msg = f"model driver {self.exe.name} died (after {len(out)} answers of this batch)"
+                if self.on_death is None:
+                    raise Infra(msg)
+                self.on_death(msg)
+                out.extend(["E:driver-died"] * (len(lines) - len(out)))
+                return out
             out.append(r.rstrip("\n"))
         th.join()
+        fault = os.environ.get("VERIF_FAULT")
+        if fault == "baddriver":      # self-test: every answer is nonsense (harsher than anything a change to /repo can cause: Spec ops are hit too)
+            return ["E:fault-injected"] * len(out)
+        if fault == "badmodel":       # self-test: every answer that depends on the model of the CODE (hand model / generated parts) is nonsense;
+            keep = self.spec_ops() if self.spec_ops else set()   # ops that evaluate only Spec/ + Crypto/ definitions (independent of /repo) stay correct
+            return [a if ln.split(" ", 1)[0] in keep else "E:fault-injected" for ln, a in zip(lines, out)]
         return out
 
     def ask(self, line):
@@ -238,6 +256,7 @@ class Check:
         self.checker_cmds = []
         self.build_ok = None
         self.drivers = []
+        self.spec_ops = set()      # request ops of the model driver that evaluate Spec-only definitions (see VERIF_FAULT=badmodel)
         self.generated_meta = {}
         self.infra_notes = []
         self.max_fail_per_stream = 25
@@ -348,12 +367,16 @@ class Check:
     def driver(self, name=None):
         """Build and start the native model driver `drv_<id>` (root Driver/<id>.lean)."""
         exe = (name or f"drv_{self.prop.lower()}")
+        if os.environ.get("VERIF_FAULT") == "nodriver":      # self-test of the harness: behave as if the model no longer compiled
+            self.broken.append(f"model driver {exe} does not build (fault injected by VERIF_FAULT=nodriver)")
+            return None
         rc, out = self._lake([exe])
         if rc != 0:
             self.broken.append(f"model driver {exe} does not build (model no longer compiles against generated parts): " + _first_error(out))
             self.extra.setdefault("driver_build", out[-1200:])
             return None
-        d = Driver(LEAN / ".lake" / "build" / "bin" / exe)
+        d = Driver(LEAN / ".lake" / "build" / "bin" / exe, on_death=lambda msg: self.broken.append(msg + " - correspondence cannot be evaluated"),
+                   spec_ops=lambda: set(getattr(self, "spec_ops", ()) or ()))
         self.drivers.append(d)
         return d
 
